@@ -518,6 +518,7 @@ pub fn run(ctx: &Ctx) -> i32 {
     let mut stats = par_shards(ctx, nshards, |shard| {
         let stats = std::cell::RefCell::new(Stats::new());
         let ent = entropy_n(500);
+        set_shrink_iters(24); // every case runs in real (paced) time
         let mut k = 0u32;
         let kc = std::cell::Cell::new(0u32);
         let _ = run_prop(mix(ctx.seed, 0x1301_0000 + shard as u64), n / nshards as u32, &ent, |raw, shrinking| {
